@@ -93,6 +93,28 @@ def handle (args : List String) : Option String :=
       let w ← parseFloats? rest
       if w.size ≠ ncp * ncp then none else
       pure (out2 ncp ncp (fun row col => pol2car ri ncp ncmar true w[row*ncp+col]! row col))
+  | "cp" :: npps :: rest => do
+      let npp ← npps.toNat?
+      let w ← parseFloats? rest
+      pure (joinFloats (w.map (fun phi => cpCoord npp phi)))
+  | "render" :: nrs :: npps :: ns :: rest => do
+      -- `n` pixels: their `cr`, their `cp`, then the `nr × npp` polar table; order-1 `map_coordinates` of the table
+      -- closed in azimuth (`wrapCol`)
+      let nr ← nrs.toNat?
+      let npp ← npps.toNat?
+      let n ← ns.toNat?
+      let w ← parseFloats? rest
+      if w.size ≠ 2 * n + nr * npp ∨ nr < 2 ∨ npp < 1 then none else
+      let pol : Nat → Nat → Float := fun a b => w[2 * n + a * npp + b]!
+      let one (p : Nat) : Float :=
+        let cr := w[p]!
+        let cp := w[n + p]!
+        let a := cr.floor.toUInt64.toNat
+        let b := cp.floor.toUInt64.toNat
+        bilin (wrapCol npp pol) a b (cr - cr.floor) (cp - cp.floor)
+      if (Array.range n).any (fun p => w[p]! < 0 ∨ w[n + p]! < 0 ∨ w[p]!.floor.toUInt64.toNat + 1 ≥ nr
+            ∨ w[n + p]!.floor.toUInt64.toNat ≥ npp) then none else
+      pure (joinFloats ((Array.range n).map one))
   | _ => none
 
 end AoVerif.Drive.C13
